@@ -64,3 +64,42 @@ PROPS["C06"] = dict(
              shards=dict(quick=6, thorough=16), timeout=dict(quick=300, thorough=1800)),
     ],
 )
+
+PROPS["C04"] = dict(
+    level="exploration",
+    manifest=dict(
+        text=("Model-based testing of ack.Queue (and of both timeout-list implementations underneath) against a table of live "
+              "entries with an outcome counter per registration: exhaustive over all histories up to length 4/5 on a 15-step "
+              "alphabet, seeded random histories of 3-40 steps over 3 sessions x 5 ids with a deadline/sweep grid built to hit "
+              "equal deadlines, same-second and rounding boundaries; plus generated concurrent programs (2-8 goroutines) run "
+              "under the race detector with schedule-independent invariants. Schedules are sampled, not enumerated."),
+        note=("Trusted: Go toolchain and race detector, rapid, the table model in harness/c04. 'To the second' is read as: a sweep at "
+              "now must expire an entry if now-deadline >= 1s, must not if deadline-now >= 1s, either in between."),
+        technique="model-based property testing (exhaustive small scope + rapid histories) and randomized concurrent stress under -race",
+    ),
+    rule=("sequential cases: histories of register (4 valid kinds, 2 rejected kinds, id 0, optional re-registration from the expiry "
+          "callback as the writer does) / acknowledge (4 ack types + a non-acker) / sweep(now) on ack.NewQueue(), then a final sweep; "
+          "oracle: Insert/Ack return values, which callbacks fire during which operation with which arguments, exactly one outcome per "
+          "registration. List-level cases: Insert/Delete/Update/Expire on the production list and on the skip list against a table. "
+          "Concurrent cases: 2-8 goroutines with generated op lists on shared and private sessions, GOMAXPROCS 2/4/16, yield injection. "
+          "Non-trivial (sequential) = an ack or sweep happens while >= 2 live entries have deadlines in the same second, or a wrong-type "
+          "ack hits a live entry; (concurrent) = >= 2 goroutines operate on the shared session. Distinct = distinct case."),
+    assumptions=[
+        "deadline tolerance: must expire if now-deadline >= 1s, must not if deadline-now >= 1s, either in between (model adopts)",
+        "an entry re-registered from a callback during a sweep may or may not be expired by that same sweep",
+        "timeout-list keys are unique among live items (the in-flight table's PutIfMissing guarantees it)",
+        "the skip list (not used in production) is exercised with Insert/Delete/Expire only",
+    ],
+    runs=[
+        dict(name="regress", pkg="c04", run="TestRegress"),
+        dict(name="enum", pkg="c04", run="TestEnum", shards=dict(quick=2, thorough=16), timeout=dict(quick=300, thorough=1800)),
+        dict(name="random", pkg="c04", run="TestRandom", checks=dict(quick=200000, thorough=1500000),
+             shards=dict(quick=8, thorough=16), timeout=dict(quick=300, thorough=1800)),
+        dict(name="list", pkg="c04", run="TestListRandom", checks=dict(quick=100000, thorough=800000),
+             shards=dict(quick=4, thorough=8), timeout=dict(quick=300, thorough=1800)),
+        dict(name="skiplist", pkg="c04", run="TestListSkipRandom", checks=dict(quick=20000, thorough=400000),
+             shards=dict(quick=2, thorough=8), timeout=dict(quick=300, thorough=1800)),
+        dict(name="concurrent", pkg="c04", run="TestConcurrent", race=True, checks=dict(quick=1600, thorough=8000),
+             shards=dict(quick=4, thorough=16), timeout=dict(quick=300, thorough=1800)),
+    ],
+)
